@@ -15,7 +15,7 @@ import z3
 from .ctx import CTX, PathEnd, OutOfSubset
 from .sym import (SInt, SBool, SStr, SRef, SBV, SReal, PyRaise, mk_int, mk_bool, mk_str, _zint, _zbool, zstr,
                   is_sym, ite)
-from .values import (Opaque, EnumMember, FuncVal, BoundMethod, PropertyVal, HostFn, HostModule, ClassVal, VObj,
+from .values import (Opaque, AbstractSeq, EnumMember, FuncVal, BoundMethod, PropertyVal, HostFn, HostModule, ClassVal, VObj,
                      RangeVal, IterVal, VDict, VSet, VList, UNROLL_LIMIT)
 
 
@@ -297,7 +297,7 @@ class Interp:
             return Opaque("%s.%s" % (modname, alias.name))
         # submodule?
         sub = self._resolve_module_name(modname + "." + alias.name)
-        if sub is not None and alias.name not in m.defs:
+        if sub is not None and (alias.name not in m.defs or isinstance(m.defs[alias.name], tuple)):
             return sub
         return m.get(alias.name)
 
@@ -586,7 +586,7 @@ class Interp:
         if isinstance(a, Opaque) or isinstance(b, Opaque):
             if isinstance(op, (ast.Eq, ast.NotEq)) and (a is None or b is None):
                 return isinstance(op, ast.NotEq)
-            return mk_bool(z3.Bool(CTX.fresh_name("opaque_cmp"))) if CTX.mode == "sym" else False
+            return Opaque("cmp")
         try:
             if isinstance(op, ast.Eq):
                 return a == b
@@ -739,8 +739,12 @@ class Interp:
             if m is None:
                 raise PyRaise(TypeError("%s object is not subscriptable" % v.cls.name))
             return self.call(BoundMethod(m, v), [k], {})
-        if isinstance(v, (Opaque, HostFn, ClassVal)):
-            return Opaque("subscript")  # typing constructs such as Generic[T], List[int]
+        if isinstance(v, ClassVal):
+            return v  # Generic[T] style subscription of a class
+        if isinstance(v, AbstractSeq):
+            return v.factory()
+        if isinstance(v, (Opaque, HostFn)):
+            return Opaque("subscript")  # typing constructs such as List[int]
         if isinstance(v, RangeVal):
             raise OutOfSubset("range subscript")
         if isinstance(v, IterVal):
@@ -1214,7 +1218,9 @@ class Interp:
 
     def _sym_range_loop(self, s, scope, rng, spec, key):
         if spec is None:
-            raise OutOfSubset("loop %s needs an invariant (symbolic range)" % (key,))
+            # no invariant supplied: invariant True (every assigned variable is havoced); sound,
+            # sufficient for claims that are local to one iteration
+            spec = LoopSpec()
         if not isinstance(s.target, ast.Name):
             raise OutOfSubset("range loop with non-name target")
         var = s.target.id
@@ -1285,7 +1291,7 @@ class Interp:
             if spec is not None and "elem" in spec.types:
                 elem = spec.types["elem"](NS(scope, old)) if callable(spec.types["elem"]) else None
             if elem is None:
-                elem = Opaque("elem")
+                elem = it.factory() if isinstance(it, AbstractSeq) else Opaque("elem")
             self.assign_target(s.target, elem, scope)
             r = self._run_body(s.body, scope)
             if r == "break":
@@ -1396,6 +1402,8 @@ class Interp:
             if m is None:
                 raise PyRaise(TypeError("bad operand type for unary operator"))
             return self.call(BoundMethod(m, v), [], {})
+        if isinstance(v, Opaque):
+            return Opaque("unary")
         if isinstance(e.op, ast.USub):
             if isinstance(v, (bool, SBool)):
                 v = v + 0
@@ -1573,8 +1581,11 @@ class Interp:
         return VDict(out)
 
     def _sym_comp(self, e, scope, it):
-        """comprehension over something of symbolic length.  Single generator, no filter, element
-        expression int- or ref-valued: the result is a symbolic list defined pointwise."""
+        """comprehension over something of symbolic length.  Single generator, no filter: the element
+        is evaluated once for an arbitrary in-range index k (local assumption 0 <= k < n; a
+        data-dependent branch inside is outside the subset); the result is a symbolic list defined
+        pointwise when the element is int- or ref-valued, otherwise a list of that length with
+        unknown contents."""
         if CTX.mode != "sym":
             raise OutOfSubset("unbounded comprehension in concrete mode")
         if len(e.generators) != 1:
@@ -1582,42 +1593,47 @@ class Interp:
         g = e.generators[0]
         inner = Scope(scope.module, scope, scope.qualname)
         k = z3.Int(CTX.fresh_name("ck"))
+        from .values import _elem_wrap
         if isinstance(it, RangeVal) and it.step == 1:
             n = _zint(it.stop) - _zint(it.start)
-            elem_in = mk_int(_zint(it.start) + k)
+            x = mk_int(_zint(it.start) + k)
         elif isinstance(it, VList):
             n = _zint(it.len())
-            elem_in = it.snapshot()
-            elem_in = None
+            x = _elem_wrap(it.kind, z3.Select(it.arr, k))
         else:
-            # opaque iterable: evaluate the element once for side conditions, result unknown
-            self.assign_target(g.target, Opaque("elem"), inner)
+            # opaque iterable: evaluate the element once (events, exceptions), result unknown
+            self.assign_target(g.target, it.factory() if isinstance(it, AbstractSeq) else Opaque("elem"), inner)
             for c in g.ifs:
-                self.eval(c, inner)
+                self.truthy(self.eval(c, inner))
             self.eval(e.elt, inner)
             r = VList([])
             r.havoc("ref")
             return r
-        n = z3.If(n > 0, n, 0)
-        # element evaluated for an arbitrary in-range k (Python exceptions inside would be raised
-        # for some k: we evaluate under the assumption 0 <= k < n in a sub-branch)
-        if isinstance(it, VList):
-            x = it.get(SInt(k)) if False else None
-            from .values import _elem_wrap
-            x = _elem_wrap(it.kind, z3.Select(it.arr, k))
-        else:
-            x = elem_in
-        self.assign_target(g.target, x, inner)
-        if g.ifs:
+        n = z3.simplify(z3.If(n > 0, n, 0))
+        CTX.push_scope(z3.And(k >= 0, k < n))
+        try:
+            if CTX.solver.check() == z3.unsat:
+                return VList([])  # n == 0 on this path
+            self.assign_target(g.target, x, inner)
+            if g.ifs:
+                for c in g.ifs:
+                    self.eval(c, inner)
+                self.eval(e.elt, inner)
+                v = None
+            else:
+                v = self.eval(e.elt, inner)
+        finally:
+            CTX.pop_scope()
+        if g.ifs or v is None:
             r = VList([])
             r.havoc("ref")
+            CTX.assume(r.length <= n)
             return r
-        v = self.eval(e.elt, inner)
         zi = _zint(v) if not isinstance(v, (SBool, bool)) else None
         if zi is not None:
-            return VList(None, z3.simplify(n), z3.Lambda([k], zi), "int")
+            return VList(None, n, z3.Lambda([k], zi), "int")
         if isinstance(v, SRef):
-            return VList(None, z3.simplify(n), z3.Lambda([k], v.t), "ref")
+            return VList(None, n, z3.Lambda([k], v.t), "ref")
         r = VList([])
         r.havoc("ref")
         CTX.assume(r.length == n)
